@@ -19,7 +19,7 @@ pub enum Act {
 }
 
 impl Act {
-    fn text(self) -> String {
+    pub(crate) fn text(self) -> String {
         match self {
             Act::DropNew => "drop-new".into(),
             Act::DropHeader => "drop-header".into(),
@@ -31,7 +31,7 @@ impl Act {
         }
     }
     /// Does the scenario end with a `Gc` (as opposed to an abandoned builder)?
-    fn completes(self, n: usize) -> bool {
+    pub(crate) fn completes(self, n: usize) -> bool {
         match self {
             Act::Complete | Act::AssumeInit => true,
             Act::Copy(m) => m == n,
@@ -42,15 +42,15 @@ impl Act {
 
 /// What the typed scenario reports back.
 #[derive(Default)]
-struct Run {
+pub(crate) struct Run {
     /// value pointer of the builder (0 if creation failed)
-    v: usize,
+    pub(crate) v: usize,
     /// the scenario produced a `Gc`
-    completed: bool,
+    pub(crate) completed: bool,
     /// contents of the completed value equal what was written
-    contents_ok: Option<bool>,
+    pub(crate) contents_ok: Option<bool>,
     /// a panic unwound out of the crate call
-    panicked: bool,
+    pub(crate) panicked: bool,
 }
 
 struct Setup {
@@ -71,7 +71,7 @@ fn setup<'gc>(mc: &Mutation<'gc>, root: &mut Root<'gc>) -> Setup {
 }
 
 // ---- gc kind -----------------------------------------------------------------------------
-fn gc_typed<'gc, E: Elem>(mc: &Mutation<'gc>, root: &mut Root<'gc>, variant_static: bool, act: Act, run: &mut Run) {
+pub(crate) fn gc_typed<'gc, E: Elem>(mc: &Mutation<'gc>, root: &mut Root<'gc>, variant_static: bool, act: Act, run: &mut Run) {
     let r = catch_unwind(AssertUnwindSafe(|| {
         let mut b: GcBuilder<'gc, E> = if variant_static {
             on(|| GcBuilder::<Static<E>>::new()).unwrap_static()
@@ -104,7 +104,7 @@ fn gc_typed<'gc, E: Elem>(mc: &Mutation<'gc>, root: &mut Root<'gc>, variant_stat
 }
 
 // ---- slice-with-header kind ---------------------------------------------------------------
-fn swh_typed<'gc, H: Hdr, E: Elem>(
+pub(crate) fn swh_typed<'gc, H: Hdr, E: Elem>(
     mc: &Mutation<'gc>,
     root: &mut Root<'gc>,
     variant_static: bool,
@@ -213,7 +213,7 @@ fn swh_typed<'gc, H: Hdr, E: Elem>(
     run.panicked = r.is_err();
 }
 
-fn swh_copy_typed<'gc, H: Hdr, E: Elem + Copy>(mc: &Mutation<'gc>, root: &mut Root<'gc>, n: usize, m: usize, run: &mut Run) {
+pub(crate) fn swh_copy_typed<'gc, H: Hdr, E: Elem + Copy>(mc: &Mutation<'gc>, root: &mut Root<'gc>, n: usize, m: usize, run: &mut Run) {
     let src: Vec<E> = (0..m).map(E::make).collect();
     let r = catch_unwind(AssertUnwindSafe(|| {
         let mut b = on(|| GcSliceWithHeaderBuilder::<Static<H>, Static<E>>::new(n)).unwrap_static_header();
@@ -228,7 +228,7 @@ fn swh_copy_typed<'gc, H: Hdr, E: Elem + Copy>(mc: &Mutation<'gc>, root: &mut Ro
 }
 
 // ---- slice kind --------------------------------------------------------------------------
-fn slice_typed<'gc, E: Elem>(mc: &Mutation<'gc>, root: &mut Root<'gc>, variant_static: bool, n: usize, act: Act, run: &mut Run) {
+pub(crate) fn slice_typed<'gc, E: Elem>(mc: &Mutation<'gc>, root: &mut Root<'gc>, variant_static: bool, n: usize, act: Act, run: &mut Run) {
     let r = catch_unwind(AssertUnwindSafe(|| {
         let b0 = on(|| GcSliceBuilder::<Static<E>>::new(n));
         if variant_static {
@@ -316,7 +316,7 @@ fn slice_typed<'gc, E: Elem>(mc: &Mutation<'gc>, root: &mut Root<'gc>, variant_s
     run.panicked = r.is_err();
 }
 
-fn slice_copy_typed<'gc, E: Elem + Copy>(mc: &Mutation<'gc>, root: &mut Root<'gc>, n: usize, m: usize, run: &mut Run) {
+pub(crate) fn slice_copy_typed<'gc, E: Elem + Copy>(mc: &Mutation<'gc>, root: &mut Root<'gc>, n: usize, m: usize, run: &mut Run) {
     let src: Vec<E> = (0..m).map(E::make).collect();
     let r = catch_unwind(AssertUnwindSafe(|| {
         let mut b = on(|| GcSliceBuilder::<Static<E>>::new(n)).unwrap_static();
@@ -330,7 +330,7 @@ fn slice_copy_typed<'gc, E: Elem + Copy>(mc: &Mutation<'gc>, root: &mut Root<'gc
 }
 
 // ---- str kind ----------------------------------------------------------------------------
-fn str_typed<'gc>(mc: &Mutation<'gc>, root: &mut Root<'gc>, n: usize, act: Act, run: &mut Run) {
+pub(crate) fn str_typed<'gc>(mc: &Mutation<'gc>, root: &mut Root<'gc>, n: usize, act: Act, run: &mut Run) {
     let text = |m: usize| -> String { (0..m).map(|i| (b'a' + (i % 26) as u8) as char).collect() };
     let r = catch_unwind(AssertUnwindSafe(|| {
         let mut b = on(|| GcStrBuilder::new(n));
@@ -358,8 +358,14 @@ fn str_typed<'gc>(mc: &Mutation<'gc>, root: &mut Root<'gc>, n: usize, act: Act, 
     run.panicked = r.is_err();
 }
 
-fn show_toks(v: &[(u8, u32)]) -> String {
-    let items: Vec<String> = v.iter().map(|(k, id)| if *k == b'H' { "H".to_string() } else { format!("E{id}") }).collect();
+pub(crate) fn show_toks(v: &[(u8, u32)]) -> String {
+    let items: Vec<String> = v.iter()
+        .map(|(k, id)| match *k {
+            b'H' => "H".to_string(),
+            b'P' => format!("P{id}"),
+            _ => format!("E{id}"),
+        })
+        .collect();
     format!("[{}]", items.join(" "))
 }
 
@@ -494,7 +500,7 @@ fn builder_case(
 }
 
 // ---- grids -------------------------------------------------------------------------------
-fn lays<H, E>() -> (usize, usize, usize, usize) {
+pub(crate) fn lays<H, E>() -> (usize, usize, usize, usize) {
     (size_of::<H>(), align_of::<H>(), size_of::<E>(), align_of::<E>())
 }
 
